@@ -70,6 +70,18 @@ expressions
     `issubclass(e, T)` with `T` a builtin type name or a tuple of such names (tuple = any of them) through the tables
     `PureSpec.isinstance` / `.issubclass` (a type the table does not list: `Unsupported`); attribute chains through Optional
     records (`a.b.c` with `a.b` Optional → `Py.unwrapAttr`); templates of the spec may call other GENERATED functions
+  * pure functions, W28: keyword-only parameters (rendered as ordinary parameters; defaults must be constants); a function-local
+    `from m import Name` as a top-level statement (not rendered; the name may only be the class operand of a spec'd `isinstance`;
+    assumption "the import succeeds" listed in the header); a bare annotation `x: T` ONLY when the very next statement is an `if/else`
+    that assigns `x` on every path before anything else (→ `let mut x : Option _ := none`, a declaration whose initial value is never
+    read; Optional locals only); `isinstance(e, C)` for an OPTIONAL record `e` (→ `e.any …`: None is an instance of nothing) and for a
+    class `C` imported in the function, through `PureSpec.isinstance`; narrowing of a union-typed PARAMETER: in the `else` branch of
+    `if isinstance(p, C):` the reads of `p` are rendered through `PureSpec.narrow[(p, C)]` ("p, which is not a C": template + type;
+    parameters are never assigned; a comprehension / lambda re-binding `p` in that branch is `Unsupported`); `xs or ys` on two lists of
+    one element type, `ys` not raising (→ `if xs.isEmpty then ys else xs`);
+    `str` literals of `[A-Za-z0-9_ .:-]*` as opaque `String`s (`PYSTR`); a spec'd METHOD call whose trailing arguments are passed by
+    keyword, in parameter order (`PureSpec.call_keywords`: all parameter names of the method); the builtin `int` as a spec'd call
+    (`calls[(None, "int")]`, refused when the module re-binds the name)
   * several `def`s of one name in a class / module (typing.overload stubs): the LAST one is translated (Python's binding)
   * function headers: decorators `property`, `override`, `staticmethod` only; parameter defaults must be constants (they concern the
     callers; the rendering takes every parameter explicitly); annotations are never consulted
@@ -304,10 +316,15 @@ class Translator:
             return E("true" if v else "false", BOOL)
         if type(v) is int and v >= 0:
             return E(str(v), NAT, lit=v)
+        if type(v) is str and self.pure is not None and re.fullmatch(r"[A-Za-z0-9_ .:-]*", v):
+            return E('"' + v + '"', PYSTR)                                  # W28: a plain ASCII literal, as an opaque `String` (only `==` / spec'd calls)
         raise Unsupported(n, "constant outside the subset")
 
     def ex_Name(self, n):
         v = n.id
+        nar = getattr(n, "_narrow", None)
+        if nar is not None:                                                # W28: the parameter read in the `else` branch of `if isinstance(p, C)`
+            return E(nar[0].format(mangle(v)), nar[1])
         if self.slot and v in (self.idx_var, self.id_param):
             raise Unsupported(n, f"`{v}` may only be used as the slot index / the yielded id in a per-slot translation")
         if self.pure and v in self.pure.params and self.pure.params[v][1] is None:
@@ -509,6 +526,12 @@ class Translator:
             a = self.ex(n.values[0])
             self.raising = False
             b = self.ex(n.values[1])
+            if is_list(a.ty) and is_list(b.ty) and a.ty[1] is not None and a.ty == b.ty:
+                # W28: `xs or ys` on lists: `ys` when `xs` is empty (the only falsy list), else `xs` itself
+                if self.raising:
+                    raise Unsupported(n, "right operand of `or` can raise: short-circuit evaluation would matter")
+                self.raising = saved
+                return E(f"(if ({a.code}).isEmpty then {b.code} else {a.code})", a.ty)
             if a.ty is not None and strip_opt(a.ty) in (NAT, INT) and b.ty in (NAT, INT):
                 if self.raising:
                     raise Unsupported(n, "right operand of `or` can raise: short-circuit evaluation would matter")
@@ -640,12 +663,18 @@ class Translator:
             table = self.pure.isinstance if f.id == "isinstance" else self.pure.issubclass
             t = n.args[1]
             names = [t] if isinstance(t, ast.Name) else list(t.elts) if isinstance(t, ast.Tuple) else []
-            if table and names and all(isinstance(x, ast.Name) and x.id in self.BUILTIN_TYPES and x.id not in self.vt
-                                       and not self._module_binds(x.id) for x in names):
+            if table and names and all(isinstance(x, ast.Name) and x.id not in self.vt
+                                       and ((x.id in self.BUILTIN_TYPES and not self._module_binds(x.id))
+                                            or self._fn_imports_class(x.id, n)) for x in names):
                 a = self.ex(n.args[0])
                 if a.ty is None:
                     return E("_", BOOL)
                 rec = a.ty[1] if isinstance(a.ty, tuple) and a.ty[0] == "Rec" else None
+                if rec is None and f.id == "isinstance" and is_opt(a.ty) and isinstance(a.ty[1], tuple) and a.ty[1][0] == "Rec":
+                    # W28: an Optional record: `isinstance(None, T)` is False for every class T the tables can name
+                    rec = a.ty[1][1]
+                    if not [x.id for x in names if (rec, x.id) not in table]:
+                        return E(f"(({a.code}).any fun v => decide (" + " ∨ ".join(table[(rec, x.id)].format("v") for x in names) + "))", BOOL)
                 missing = [x.id for x in names if (rec, x.id) not in table]
                 if rec is None or missing:
                     raise Unsupported(n, f"{f.id} of a {lean_ty(a.ty)} against {missing or [x.id for x in names]}: not declared in the spec")
@@ -663,7 +692,7 @@ class Translator:
             if rec is not None and (rec, f.attr) in self.pure.methods:
                 tpl, ty = self.pure.methods[(rec, f.attr)]
                 return E(tpl.format(obj), ty)
-        if self.pure is not None and not n.keywords:
+        if self.pure is not None and (not n.keywords or self._kw_call(n)):
             # a function / method that is not translated: the spec names the hand-written Lean term that stands for it
             key, obj = None, ""
             if isinstance(f, ast.Name) and (None, f.id) in self.pure.calls:
@@ -680,10 +709,18 @@ class Translator:
                 key = (rec, f.attr) if rec is not None else None
             if key in self.pure.calls:
                 tpl, arg_tys, ret, raises = self.pure.calls[key]
-                if len(arg_tys) != len(n.args):
-                    raise Unsupported(n, f"{key[1]} takes {len(arg_tys)} positional argument(s) in the spec")
+                actual = list(n.args)
+                if n.keywords:
+                    # W28: trailing arguments passed by keyword, in the order of the parameter names the spec declares
+                    names = self.pure.call_keywords.get(key)
+                    kws = [k.arg for k in n.keywords]
+                    if names is None or len(names) != len(arg_tys) or None in kws or kws != names[len(n.args):]:
+                        raise Unsupported(n, f"keyword arguments of {key[1]}: the spec declares the parameters {names}")
+                    actual += [k.value for k in n.keywords]
+                if len(arg_tys) != len(actual):
+                    raise Unsupported(n, f"{key[1]} takes {len(arg_tys)} argument(s) in the spec")
                 args = []
-                for a, want in zip(n.args, arg_tys):
+                for a, want in zip(actual, arg_tys):
                     if isinstance(a, ast.Starred):
                         raise Unsupported(n, "starred argument")
                     e = self.ex(a)
@@ -693,8 +730,19 @@ class Translator:
                 return E(tpl.format(*args, obj=obj), ret)
         raise Unsupported(n, "call outside the subset")
 
+    def _kw_call(self, n):
+        """a call with keyword arguments: only a method of a spec'd record for which the spec declares parameter names"""
+        f = n.func
+        if isinstance(f, ast.Attribute) and isinstance(f.value, ast.Name):
+            try:
+                rec, _ = self._record_of(f.value)
+            except Unsupported:
+                return False
+            return (rec, f.attr) in self.pure.call_keywords
+        return False
+
     # builtins whose meaning on the abstract records of a `PureSpec` the spec has to name (`calls[(None, "isinstance")]`)
-    SPEC_BUILTINS = {"isinstance"}
+    SPEC_BUILTINS = {"isinstance", "int"}
     BUILTIN_TYPES = {"int", "float", "str", "bytes", "bytearray", "bool", "dict", "list", "tuple"}
 
     def _imported_from(self, module, name):
@@ -1168,7 +1216,81 @@ class Translator:
             return self._assign_field(fld, e, st, ind, st.value)
         raise Unsupported(st, "assignment target outside the subset")
 
+    # ---- W28: function-local class imports, narrowing of a union-typed parameter, bare annotations
+    def _fn_imports_class(self, name, use):
+        """is `name` bound by a `from … import name` that is a top-level statement of the function body before `use` (and nowhere else
+        in the function)? Such a name may only be used as the class operand of a spec'd `isinstance`"""
+        hits = [st for st in getattr(self, "fn_body", []) if isinstance(st, ast.ImportFrom)
+                and any((a.asname or a.name) == name and a.asname is None for a in st.names)]
+        return len(hits) == 1 and hits[0].end_lineno < use.lineno
+
+    def st_ImportFrom(self, st, ind):
+        if self.pure is None or st not in getattr(self, "fn_body", []) or any(a.asname is not None or a.name == "*" for a in st.names):
+            raise Unsupported(st, "import outside the subset (only `from m import Name` as a top-level statement of a pure function)")
+        for a in st.names:
+            if a.name in self.vt or a.name in self.pure.params:
+                raise Unsupported(st, f"`{a.name}` is imported and also a local")
+        note = "function-local `from … import Class` is not rendered (assumption: the import succeeds; the name is only used in isinstance)"
+        if note not in self.notes:
+            self.notes.append(note)
+        self.emit(ind, "pure ()   -- a local import: binds a class name", st)
+        return False
+
+    def mark_narrowing(self, body):
+        """`if isinstance(p, C): … else: …` for a parameter `p` for which the spec declares (`PureSpec.narrow`) what `p` is when it is
+        not a `C`: the reads of `p` in the `else` branch are rendered through that template (parameters are never assigned)"""
+        if self.pure is None or not self.pure.narrow:
+            return
+        for st in ast.walk(ast.Module(body=body, type_ignores=[])):
+            t = st.test if isinstance(st, ast.If) else None
+            if not (isinstance(t, ast.Call) and isinstance(t.func, ast.Name) and t.func.id == "isinstance" and len(t.args) == 2
+                    and not t.keywords and isinstance(t.args[0], ast.Name) and isinstance(t.args[1], ast.Name)
+                    and (t.args[0].id, t.args[1].id) in self.pure.narrow and st.orelse):
+                continue
+            p = t.args[0].id
+            for sub in st.orelse:
+                for x in ast.walk(sub):
+                    if isinstance(x, (ast.Lambda, ast.FunctionDef, ast.comprehension)):
+                        bound = [y.id for y in ast.walk(x.target)] if isinstance(x, ast.comprehension) else [y.arg for y in ast.walk(x.args) if isinstance(y, ast.arg)]
+                        if p in [b for b in bound if isinstance(b, str)]:
+                            raise Unsupported(x, f"`{p}` is re-bound inside the narrowed branch")
+                    if isinstance(x, ast.Name) and x.id == p and isinstance(x.ctx, ast.Load):
+                        x._narrow = self.pure.narrow[(p, t.args[1].id)]
+
+    def _definitely_assigns(self, stmts, v):
+        for s_ in stmts:
+            if isinstance(s_, ast.Assign) and len(s_.targets) == 1 and isinstance(s_.targets[0], ast.Name) and s_.targets[0].id == v:
+                return True
+            if isinstance(s_, ast.If) and s_.orelse and self._definitely_assigns(s_.body, v) and self._definitely_assigns(s_.orelse, v):
+                return True
+            if isinstance(s_, (ast.If, ast.For, ast.While, ast.Return, ast.Break, ast.Continue, ast.Try, ast.With)):
+                return False                                               # anything that could read `v` or leave first: give up
+        return False
+
+    def _bare_annotation(self, st, ind):
+        """`x: T` (no value): no run-time effect (annotations of locals are not evaluated). The Lean variable is declared here so that
+        assignments in BOTH branches of the `if` that follows are visible after it; accepted only when that `if/else` — the very next
+        statement — assigns `x` on every path before anything else happens (the initial value below is then never read)"""
+        v = st.target.id
+        blocks = [self.fn_body] + [b for n_ in ast.walk(ast.Module(body=self.fn_body, type_ignores=[]))
+                                   for b in (getattr(n_, "body", None), getattr(n_, "orelse", None)) if isinstance(b, list)]
+        nxt = None
+        for b in blocks:
+            for k, s_ in enumerate(b):
+                if s_ is st and k + 1 < len(b):
+                    nxt = b[k + 1]
+        t = self.vt.get(v)
+        if self.declared(v) or nxt is None or not self._definitely_assigns([nxt], v) or not isinstance(nxt, ast.If):
+            raise Unsupported(st, "a bare annotation must be followed by an if/else that assigns the variable on every path")
+        if not is_opt(t):
+            raise Unsupported(st, f"bare annotation of a local of type {lean_ty(t)} (only Optional locals: declared as `none`)")
+        self.scopes[-1].add(v)
+        self.emit(ind, f"let mut {mangle(v)} : {lean_ty(t)} := none   -- declaration only: assigned on every path of the next statement", st)
+        return False
+
     def st_AnnAssign(self, st, ind):
+        if st.value is None and isinstance(st.target, ast.Name) and self.pure is not None:
+            return self._bare_annotation(st, ind)
         if st.value is None or not isinstance(st.target, ast.Name):
             raise Unsupported(st, "annotated assignment outside the subset")
         return self._assign_local(st.target.id, self.ex(st.value), st, ind, st.value)
@@ -1698,6 +1820,10 @@ class PureSpec:
     issubclass: dict = field(default_factory=dict)   # (record, builtin type name) -> template of `issubclass({0}, <type>)`
     eq: dict = field(default_factory=dict)         # record -> template of Python's `==` on it (`{0}`, `{1}`: Bool-valued Lean term)
     enums: dict = field(default_factory=dict)      # plain `Enum` class -> (Lean inductive type, {member -> constructor}); ALL members
+    # W28: a parameter of a union type `Union[A, C]` read in the `else` branch of `if isinstance(p, C):` — (parameter, class name) ->
+    # (Lean template of "p, which is not a C", its type there)
+    narrow: dict = field(default_factory=dict)
+    call_keywords: dict = field(default_factory=dict)   # W28: key of `calls` -> ALL parameter names (trailing arguments may be passed by keyword)
     open_ns: str = ""                              # further namespaces opened in the generated file
     prelude: list = field(default_factory=list)    # hand-written Lean lines emitted before the function (glue named by templates)
 
@@ -1709,9 +1835,12 @@ def translate_pure_function(src: str, func: str, spec: PureSpec, namespace: str,
     fn = _find_func(_find_class(module, cls_name) if cls_name else module, func)
     tr = Translator(module, lines, pure=spec)
     a = fn.args
-    if a.vararg or a.kwarg or a.kwonlyargs or a.posonlyargs or [x.arg for x in a.args] != list(spec.params):
+    if a.vararg or a.kwarg or a.posonlyargs or [x.arg for x in a.args + a.kwonlyargs] != list(spec.params):
         raise Unsupported(fn, f"expected parameters {list(spec.params)}")
-    for d in a.defaults:                                                   # defaults concern the callers, not the body
+    if a.kwonlyargs:                                                       # W28: keyword-only parameters are parameters (how they are passed concerns the callers)
+        tr.notes.append("keyword-only parameters (rendered as ordinary parameters): " + ", ".join(
+            x.arg + ("" if d is None else "=" + ast.unparse(d)) for x, d in zip(a.kwonlyargs, a.kw_defaults)))
+    for d in list(a.defaults) + [d for d in a.kw_defaults if d is not None]:   # defaults concern the callers, not the body
         if not isinstance(d, ast.Constant):
             raise Unsupported(d, "a parameter default that is not a constant (evaluated once, possibly shared)")
     if a.defaults:
@@ -1725,6 +1854,7 @@ def translate_pure_function(src: str, func: str, spec: PureSpec, namespace: str,
     while body and isinstance(body[0], ast.Expr) and isinstance(body[0].value, ast.Constant) and isinstance(body[0].value.value, str):
         body.pop(0)
     tr.fn_body = body
+    tr.mark_narrowing(body)
     tr.infer(body, {k: v[0] for k, v in spec.params.items()})
     if tr.pure_ret is None:
         for st in ast.walk(ast.Module(body=body, type_ignores=[])):       # surface the reason (inference swallows it before its last round)
@@ -1753,6 +1883,8 @@ def translate_pure_function(src: str, func: str, spec: PureSpec, namespace: str,
     for fname, table in (("isinstance", spec.isinstance), ("issubclass", spec.issubclass)):
         for (rec, ty), tpl in table.items():
             o.append(f"      {fname}({rec}, {ty}) ↔ {tpl.format('·')} : Bool")
+    for (par, cls), (tpl, ty) in spec.narrow.items():
+        o.append(f"      {par}, read where `isinstance({par}, {cls})` is false ↔ {tpl.format(par)} : {lean_ty(ty)}")
     for rec, tpl in spec.eq.items():
         o.append(f"      {rec} == {rec} ↔ {tpl.format('‹a›', '‹b›')} : Bool   (None == None, a value never equals None: Py.optEq)")
     for (rec, k), ent in spec.keyed.items():
@@ -2135,6 +2267,80 @@ def regenerate_scale_applies(repo, verif):
     return _write(Path(verif) / "lean" / "OdxVerif" / "Gen" / "CompuScaleApplies.lean", render_scale_applies(Path(repo)))
 
 
+# ---- W28: `HierarchyElement.get_comparam` (diaglayers/hierarchyelement.py) ↔ `Comparam.getComparamIn` (Model/Comparam.lean)
+_INST, _PROTOARG = ("Rec", "Inst"), ("Rec", "ProtoArg")
+GETCOMPARAM_SPEC = PureSpec(
+    params={"self": (("Rec", "HierarchyElement"), None), "cp_short_name": (PYSTR, "cp_short_name"), "protocol": (opt(_PROTOARG), "protocol")},
+    binders="(refs : List Inst) (cp_short_name : String) (protocol : Option ProtoArg)",
+    attrs={("HierarchyElement", "comparam_refs"): ("refs", ("List", _INST)),
+           ("Inst", "short_name"): ("{}.name", PYSTR),
+           ("Inst", "protocol_snref"): ("{}.proto", opt(PYSTR)),
+           ("ProtoArg", "short_name"): ("(← ProtoArg.shortNameE {})", PYSTR)},
+    isinstance={("ProtoArg", "Protocol"): "({}).isProtocol"},
+    narrow={("protocol", "Protocol"): ("(ProtoArg.asName {})", opt(PYSTR))},
+    open_ns="OdxVerif.Comparam",
+    prelude=["/-- the argument `protocol: Optional[Union[str, Protocol]]`: a protocol name, or a `Protocol` layer object (of which the",
+             "    function reads `short_name` only) -/",
+             "inductive ProtoArg where",
+             "  | name (s : String)",
+             "  | layer (shortName : String)",
+             "deriving Repr, DecidableEq",
+             "/-- `isinstance(·, Protocol)` -/",
+             "def ProtoArg.isProtocol : ProtoArg → Bool | .layer _ => true | .name _ => false",
+             "/-- `·.short_name`: a `str` has no such attribute -/",
+             "def ProtoArg.shortNameE : ProtoArg → Py.M String | .layer s => pure s | .name _ => throw Py.Err.attributeError",
+             "/-- `protocol` where it is known not to be a `Protocol` (the `else` branch of the isinstance test): None or the string itself;",
+             "    the value for a `Protocol` is never read there -/",
+             "def ProtoArg.asName : Option ProtoArg → Option String | some (.name s) => some s | _ => none"])
+
+
+def render_get_comparam(repo: Path) -> str:
+    rel = "odxtools/diaglayers/hierarchyelement.py"
+    src = (Path(repo) / rel).read_text()
+    return translate_pure_function(src, "get_comparam", GETCOMPARAM_SPEC, "OdxVerif.Comparam.Gen", ["OdxVerif.Model.Comparam", "OdxVerif.Model.PyRt"],
+                                   rel, cls_name="HierarchyElement")
+
+
+# the typed accessors that read a simple parameter through `get_value()` and convert it with `int()` (`viaValue … intRes` of the model);
+# `self.get_comparam` is the function generated above, `get_value` / `int` are the model's `getValue` / `pyInt`
+_ACCESSORS_INT = ["get_can_func_req_id", "get_doip_logical_gateway_address", "get_doip_logical_tester_address",
+                  "get_doip_logical_functional_address", "get_doip_routing_activation_type",
+                  "get_can_baudrate"]          # the last one: `viaGuardedValue` (a complex value is answered with None)
+ACCESSOR_SPEC = PureSpec(
+    params={"self": (("Rec", "HierarchyElement"), None), "protocol": (opt(_PROTOARG), "protocol")},
+    binders="(refs : List Inst) (protocol : Option ProtoArg)",
+    calls={("HierarchyElement", "get_comparam"): ("(← getComparamE refs {0} {1})", [PYSTR, opt(_PROTOARG)], opt(_INST), True),
+           ("Inst", "get_value"): ("(← Py.call errOfComparam (getValue {obj}))", [], PYSTR, True),
+           (None, "int"): ("(← pyIntE {0})", [PYSTR], INT, True)},
+    call_keywords={("HierarchyElement", "get_comparam"): ["cp_short_name", "protocol"]},
+    attrs={("Inst", "value"): ("{}.value", ("Rec", "CVal"))},
+    isinstance={("CVal", "str"): "({}).isStr"},
+    open_ns="OdxVerif.Comparam",
+    prelude=["/-- exception classes of the hand-written `getValue` (comparaminstance.py): `odxraise()` in strict mode is an OdxError -/",
+             "def errOfComparam : Comparam.Err → Py.Err | .odx => .odxError | .foreign => .foreign",
+             "/-- `int(s)` for a `str`: the model's `pyInt`; a string that is no integer literal raises ValueError (class `foreign`) -/",
+             "def pyIntE (s : String) : Py.M Int := match pyInt s with | some i => pure i | none => throw Py.Err.foreign"])
+
+
+def render_accessors(repo: Path) -> str:
+    rel = "odxtools/diaglayers/hierarchyelement.py"
+    src = (Path(repo) / rel).read_text()
+    out = []
+    for k, fn in enumerate(_ACCESSORS_INT):
+        spec = ACCESSOR_SPEC if k == 0 else PureSpec(**{**ACCESSOR_SPEC.__dict__, "prelude": []})
+        out.append(translate_pure_function(src, fn, spec, "OdxVerif.Comparam.Gen",
+                                           ["OdxVerif.Gen.GetComparam"] if k == 0 else [], rel, cls_name="HierarchyElement"))
+    return "\n".join(out)
+
+
+def regenerate_accessors(repo, verif):
+    return _write(Path(verif) / "lean" / "OdxVerif" / "Gen" / "ComparamAccessors.lean", render_accessors(Path(repo)))
+
+
+def regenerate_get_comparam(repo, verif):
+    return _write(Path(verif) / "lean" / "OdxVerif" / "Gen" / "GetComparam.lean", render_get_comparam(Path(repo)))
+
+
 def _write(out: Path, new: str):
     if not out.exists() or out.read_text() != new:
         out.write_text(new)
@@ -2159,9 +2365,9 @@ if __name__ == "__main__":
     if len(sys.argv) > 2:
         for regen in (regenerate_isotp, regenerate_staticlen, regenerate_muxkey, regenerate_limit, regenerate_inherit_prio,
                       regenerate_itemkey, regenerate_odxlink_resolve, regenerate_required,
-                      regenerate_findsvc, regenerate_scale_applies, regenerate_segment_applies):
+                      regenerate_findsvc, regenerate_scale_applies, regenerate_segment_applies, regenerate_get_comparam, regenerate_accessors):
             print(regen(repo, Path(sys.argv[2])))
     else:
         for render in (render_isotp, render_staticlen, render_muxkey, render_limit, render_inherit_prio, render_itemkey, render_odxlink_resolve, render_required,
-                       render_findsvc, render_scale_applies, render_segment_applies):
+                       render_findsvc, render_scale_applies, render_segment_applies, render_get_comparam, render_accessors):
             sys.stdout.write(render(repo))
